@@ -22,7 +22,11 @@ def check(rep, tier):
                 "coldest product temperature after each step is known: the trigger step must be the first with min T <= cnTemp (compared with find_first of model/SnLoop.v evaluated on the "
                 "observed minima), the reported T_nuc(_min) <= cnTemp < coldest temperature one step earlier, t_nuc > 0; non-trivial = completed run whose trigger lies after the first step")
     rep.trusted = ["Coq 8.16.1 kernel + vm_compute", "simps shim", "every step saved (<= 10000 steps)"]
-    recs = sr.catalogue(rng, tier, cn=True, n0=3, n1=2 if tier == "quick" else 6, n2=1 if tier == "quick" else 4)
+    recs = sr.catalogue(rng, tier, dims=("homogeneous", "spatial_1D"), cn=True, n0=2, n1=1 if tier == "quick" else 4)
+    # a trigger temperature colder than where the vial would nucleate spontaneously: controlled nucleation still waits for it
+    recs += sr.catalogue(rng, tier, dims=("homogeneous", "spatial_1D"), cn=-19, n0=1, n1=1, confs=["shelf"])
+    # 2D: the coldest point need not be in the layer touching the shelf (VISF: the top is cooled by evaporation)
+    recs += sr.catalogue(rng, tier, dims=("spatial_2D",), cn=True, n2=1 if tier == "quick" else 3, confs=["VISF", "jacket", "shelf"], early_vacuum=True)
     cases, labs = [], []
     for rec in recs:
         S, dt, lab = rec["S"], rec["dt"], rec["label"]
